@@ -76,6 +76,11 @@ func runC01(c *vu.Case) {
 		peers[atoi(p[0])] = simPeer{beh: p[1][0], list: parseInts(p[2], ".")}
 	}
 	w = newWorld(n, "key-"+a["key"], BucketSize(K), Concurrency(atoi(a["a"])), Resiliency(atoi(a["b"])), disableFixLowPeersRoutine(c.T))
+	if lim := atoi(a["div"]); lim > 0 {
+		// the lookup-level IP diversity filter (the routing table itself stays unfiltered)
+		w.d.rtPeerDiversityFilter = NewRTPeerDiversityFilter(w.h, 1000, lim)
+		w.groupSize = max(1, atoi(a["gs"]))
+	}
 	for r, sp := range peers {
 		if sp.beh == 'd' {
 			w.dialFail[w.peerOf(r)] = true
@@ -478,8 +483,15 @@ func genC01(r *vu.RNG, c *vu.Case) bool {
 			rt = append(rt, fmt.Sprint(p))
 		}
 	}
-	c.In = append(c.In, fmt.Sprintf("lookup n=%d key=%d K=%d a=%d b=%d api=%s rt=%s peers=%s", n, c.Idx, K, alpha, beta, api,
-		strings.Join(rt, ","), strings.Join(specs, "|")))
+	div, gs := 0, 1
+	if r.Chance(1, 4) {
+		div, gs = r.Range(1, 3), r.Range(1, 4)
+	}
+	c.In = append(c.In, fmt.Sprintf("lookup n=%d key=%d K=%d a=%d b=%d api=%s div=%d gs=%d rt=%s peers=%s", n, c.Idx, K, alpha, beta, api,
+		div, gs, strings.Join(rt, ","), strings.Join(specs, "|")))
+	if div > 0 {
+		c.Tag("diversity-filter")
+	}
 	steps := r.Range(1, 3*n+4)
 	policy := r.Intn(4)
 	cancelAt := -1
